@@ -785,7 +785,11 @@ package astits
 //@   modifies i.offset
 //@   opt sweep:C03
 //@   let mjd0 = int(old(be16(i.bs, i.offset)))
-//@   at call time.Date#0 assert [C15] ymd: $year == dvbYear(mjd0) && int($month) == dvbMonth(mjd0) && $day == dvbDay(mjd0) && $hour == 0 && $min == 0 && $sec == 0 && $nsec == 0
+//@   split mjd0 & 0x8000 != 0, mjd0 & 0x4000 != 0, mjd0 & 0x2000 != 0, mjd0 & 0x1000 != 0, mjd0 & 0x800 != 0
+//@   at call time.Date#0 assert [C15,THOROUGH] y1: yt == dvbY1(mjd0)
+//@   at call time.Date#0 assert [C15,THOROUGH] m1: mt == dvbM1(mjd0)
+//@   at call time.Date#0 assert [C15,THOROUGH] ym: $year == dvbYear(mjd0) && int($month) == dvbMonth(mjd0)
+//@   at call time.Date#0 assert [C15] midnight: $hour == 0 && $min == 0 && $sec == 0 && $nsec == 0
 //@   ensures [C03] bound: err == nil ==> old(i.offset) <= i.offset && i.offset <= len(i.bs) + 0x10000
 
 //@ func parseDescriptors
